@@ -81,6 +81,7 @@ def step (s : DState) (line : String) : DState × String :=
     match r.2 with
     | .root h => ({ cur := r.1, snaps := s.snaps ++ [(s.cur.commit H).2] }, toHex h)
     | _ => (s, "model-error")
+  | ["fork"] => ({ s with snaps := s.snaps ++ [s.cur] }, "ok")     -- a value copy of the trie object
   | ["sget", i, k] =>
     match i.toNat?, ofHex? k with
     | some i, some k =>
